@@ -695,6 +695,58 @@ fn gen_var_value(rng: &mut Rng, ty: Ty) -> Value {
     if rng.chance(5, 6) {
         return gen_value(rng, ty);
     }
+    gen_other_value(rng, ty)
+}
+
+/// "Tag drift": a value of another integer kind in a variable declared with integer type `ty` (the
+/// interpreter can leave e.g. a DINT in an INT variable), chosen around the limits of `ty` so that
+/// both the in-range conversion and the `Overflow` refusal of `coerce_to_io` are exercised.
+fn gen_drift_value(rng: &mut Rng, ty: Ty) -> Option<Value> {
+    let (lo, hi): (i128, i128) = match ty {
+        Ty::SInt => (-128, 127),
+        Ty::Int => (-32768, 32767),
+        Ty::DInt => (-(1 << 31), (1 << 31) - 1),
+        Ty::LInt => (i128::from(i64::MIN), i128::from(i64::MAX)),
+        Ty::USInt => (0, 255),
+        Ty::UInt => (0, 65535),
+        Ty::UDInt => (0, (1 << 32) - 1),
+        Ty::ULInt => (0, i128::from(u64::MAX)),
+        _ => return None,
+    };
+    let x: i128 = match rng.below(8) {
+        0 => lo,
+        1 => lo - 1,
+        2 => hi,
+        3 => hi + 1,
+        4 => -1,
+        5 => 0,
+        6 => i128::from(rng.range(-300, 70000)),
+        _ => lo + (i128::from(rng.next() >> 1) % (hi - lo + 1)),
+    };
+    // carriers that can hold x, other than the declared kind
+    let mut carriers: Vec<Value> = Vec::new();
+    if let Ok(v) = i8::try_from(x) { if ty != Ty::SInt { carriers.push(Value::SInt(v)); } }
+    if let Ok(v) = i16::try_from(x) { if ty != Ty::Int { carriers.push(Value::Int(v)); } }
+    if let Ok(v) = i32::try_from(x) { if ty != Ty::DInt { carriers.push(Value::DInt(v)); } }
+    if let Ok(v) = i64::try_from(x) { if ty != Ty::LInt { carriers.push(Value::LInt(v)); } }
+    if let Ok(v) = u8::try_from(x) { if ty != Ty::USInt { carriers.push(Value::USInt(v)); } }
+    if let Ok(v) = u16::try_from(x) { if ty != Ty::UInt { carriers.push(Value::UInt(v)); } }
+    if let Ok(v) = u32::try_from(x) { if ty != Ty::UDInt { carriers.push(Value::UDInt(v)); } }
+    if let Ok(v) = u64::try_from(x) { if ty != Ty::ULInt { carriers.push(Value::ULInt(v)); } }
+    if carriers.is_empty() {
+        return None;
+    }
+    Some(rng.pick(&carriers).clone())
+}
+
+/// A value of any kind for a variable of declared type `ty`, except that a float-typed variable
+/// never gets a numeric value of another kind.
+fn gen_other_value(rng: &mut Rng, ty: Ty) -> Value {
+    if rng.chance(2, 3) {
+        if let Some(v) = gen_drift_value(rng, ty) {
+            return v;
+        }
+    }
     let v = gen_any_value(rng);
     let numeric = matches!(
         v,
@@ -702,10 +754,83 @@ fn gen_var_value(rng: &mut Rng, ty: Ty) -> Value {
             | Value::UDInt(_) | Value::ULInt(_) | Value::Real(_) | Value::LReal(_)
     );
     if matches!(ty, Ty::Real | Ty::LReal) && numeric {
-        gen_value(rng, ty)
+        if rng.bool() { Value::Null } else { gen_value(rng, ty) }
     } else {
         v
     }
+}
+
+/// Sweep of one typed binding over values of the right and of drifted / foreign kinds: every
+/// step sets the variable, publishes and (for a %M binding) latches back.
+fn run_sweep(n: u64, rng: &mut Rng, out: &mut Out) {
+    out.line(format!("case {n}"));
+    out.line("kind bind");
+    let ty = ELEMENTARY[((n / 16) % 17) as usize];
+    let mut io = IoInterface::new();
+    let len = rng.below(6) as usize;
+    io.resize(0, len, len);
+    out.line(format!("resize 0 {len} {len}"));
+    let mut storage = VariableStorage::new();
+    out.line("nvars 1");
+    storage.set_global("v0", ty.zero());
+    out.line(format!("var 0 {}", val_tok(&ty.zero())));
+    let area = if rng.bool() { Ar::Q } else { Ar::M };
+    let ad = Ad::flat(area, ty.size(), rng.below(5) as u32, if ty == Ty::Bool { rng.below(8) as u8 } else { 0 });
+    let addr = ad.real(out);
+    let by_ref = rng.bool();
+    if by_ref {
+        io.bind_ref_typed(storage.ref_for_global("v0").expect("ref"), addr, ty.id());
+    } else {
+        io.bind_typed("v0", addr, ty.id());
+    }
+    out.line(format!("bind {} 0 {} {}", if by_ref { "ref" } else { "name" }, ad.tok(), ty.tok()));
+    for _ in 0..16 {
+        let v = if rng.chance(1, 4) { gen_value(rng, ty) } else { gen_other_value(rng, ty) };
+        storage.set_global("v0", v.clone());
+        out.line(format!("setvar 0 {}", val_tok(&v)));
+        out.line("publish");
+        match silent_catch(|| io.write_outputs(&storage)) {
+            Ok(r) => {
+                out.line(format!(
+                    "impl {} {}",
+                    match &r {
+                        Ok(()) => "ok".to_string(),
+                        Err(e) => format!("err:{}", err_tok(e)),
+                    },
+                    images(&io)
+                ));
+                out.count(&match &r {
+                    Ok(()) => "sweep_publish_ok".to_string(),
+                    Err(e) => format!("sweep_publish_{}", err_tok(e)),
+                });
+            }
+            Err(()) => {
+                out.line("impl panic");
+                break;
+            }
+        }
+        if area == Ar::M {
+            out.line("latch");
+            match silent_catch(|| io.read_inputs(&mut storage)) {
+                Ok(r) => out.line(format!(
+                    "impl {} vars={}",
+                    match &r {
+                        Ok(()) => "ok".to_string(),
+                        Err(e) => format!("err:{}", err_tok(e)),
+                    },
+                    dump_globals(&storage, 1)
+                )),
+                Err(()) => {
+                    out.line("impl panic");
+                    break;
+                }
+            }
+        }
+    }
+    out.line("tag nontrivial");
+    out.line(format!("tag sweep-{}", ty.tok()));
+    out.line("tag bind");
+    out.line("end");
 }
 
 fn run_bind(n: u64, rng: &mut Rng, out: &mut Out) {
@@ -829,7 +954,13 @@ fn run_bind(n: u64, rng: &mut Rng, out: &mut Out) {
             }
             2 | 3 => {
                 out.line("latch");
-                let r = io.read_inputs(&mut storage);
+                let r = match silent_catch(|| io.read_inputs(&mut storage)) {
+                    Ok(r) => r,
+                    Err(()) => {
+                        out.line("impl panic");
+                        break;
+                    }
+                };
                 // a Name target defines its variable
                 for (i, d) in defined.iter_mut().enumerate() {
                     if storage.get_global(&format!("v{i}")).is_some() {
@@ -848,7 +979,13 @@ fn run_bind(n: u64, rng: &mut Rng, out: &mut Out) {
             }
             _ => {
                 out.line("publish");
-                let r = io.write_outputs(&storage);
+                let r = match silent_catch(|| io.write_outputs(&storage)) {
+                    Ok(r) => r,
+                    Err(()) => {
+                        out.line("impl panic");
+                        break;
+                    }
+                };
                 out.line(format!(
                     "impl {} {}",
                     match &r {
@@ -1341,8 +1478,15 @@ fn do_cycle(run: &mut RtRun, c: &RtCase, full: bool) -> (String, bool) {
     if let Some(control) = &run.control {
         let _ = control.drain_runtime_events();
     }
-    let res = run.h.cycle();
-    let mut sh = run.shared.lock().expect("shared");
+    let res = match silent_catch(|| run.h.cycle()) {
+        Ok(res) => res,
+        // a panic is an observable; the runtime is abandoned afterwards
+        Err(()) => return ("impl panic".to_string(), false),
+    };
+    let mut sh = match run.shared.lock() {
+        Ok(sh) => sh,
+        Err(_) => return ("impl panic".to_string(), false),
+    };
     sh.drain();
     let log = if sh.log.is_empty() { "-".to_string() } else { sh.log.join(";") };
     drop(sh);
@@ -1422,7 +1566,7 @@ fn run_rt(n: u64, rng: &mut Rng, cycles: usize, out: &mut Out) -> Result<(), Str
             }
             let i = *rng.pick(&ext_targets);
             let wrong = c.vars[i].sink_only && c.vars[i].at.is_some() && rng.chance(1, 6);
-            let v = if wrong { gen_any_value(rng) } else { gen_value(rng, c.vars[i].ty) };
+            let v = if wrong { gen_other_value(rng, c.vars[i].ty) } else { gen_value(rng, c.vars[i].ty) };
             if wrong {
                 out.count("rt_wrong_kind_ext");
             }
@@ -1476,6 +1620,10 @@ fn run_rt(n: u64, rng: &mut Rng, cycles: usize, out: &mut Out) -> Result<(), Str
         out.line(format!("cycle {}", if full { "full" } else { "idle" }));
         let (ans, ok) = do_cycle(&mut run, &c, full);
         out.line(&ans);
+        if ans == "impl panic" {
+            out.count("rt_panic");
+            break;
+        }
         out.count("rt_cycles");
         out.count(if ok { "rt_cycle_ok" } else { "rt_cycle_err" });
         if !ok {
@@ -1603,6 +1751,7 @@ pub fn run(args: &Args) -> i32 {
         }
         match n % 8 {
             0 | 1 => run_raw(n, &mut rng, raw_ops, &mut out),
+            2 if (n / 8) % 2 == 1 => run_sweep(n, &mut rng, &mut out),
             2 => run_bind(n, &mut rng, &mut out),
             3 => run_pa(n, &mut rng, raw_ops, &mut out),
             _ => {
